@@ -13,6 +13,11 @@ L3 : written from the property statement with Fractions / brute force only (no L
      beta-binomial law (Fractions), positive, sum 1, continuous as F -> 0; matrices row-stochastic and non-negative, mean
      preserving; no-call and enough-coverage probabilities in [0,1]; corrected total <= uncorrected total, entries >= 0;
      deep coverage: corrected = plain projection up to the explicit 2^-D bound.
+Simulated path (statistical, 6-sigma Monte-Carlo tolerances): `subsample_genotypes_1D` directly — L copies of fully and partly
+     called locus patterns; kept rows, no uncalled genotype drawn, mean and whole distribution of the subsampled allele count =
+     "nsub/2 of the called individuals at random" (exact by enumeration; K against the model's `projInb` row); and
+     `check_sim_deep`: deep coverage with sim_threshold = 0 / 1e-30 / 1e-20, nsub < nseq, 1 and 2 populations, nsim 2000 / 1000:
+     every simulated table = projection row(s) of its allele counts, corrected model = projected model within the summed bound.
 History: every single-function case starts from freshly reloaded LowPass module state, and `check_history` builds several
      low-pass functions in ONE process with the same population names (same sizes/options but different coverage; same
      coverage but different Fx / sizes / threshold / nsim / model), evaluates them in shuffled orders and repeatedly, and
@@ -676,7 +681,7 @@ def check_lowpass(chk, ctx, case, do_model=True):
                     simulated_entries=(None if use_sim_mat is None else int(use_sim_mat.sum()))))
 
 # --------------------------------------------------------------------------- the simulated path: statistics
-ZSIG = 6.0          # standard deviations allowed for Monte-Carlo frequencies (calibrated: observed <= 4.3 over seeds 0..3, both tiers)
+ZSIG = 6.0          # standard deviations allowed for Monte-Carlo frequencies (calibrated on the unchanged tree: largest observed deviation 2.7 sigma quick / 3.6 sigma thorough over seeds 0..3)
 
 def subsample_exact(g_called, m):
     """distribution of the allele count when m of the called individuals (genotypes g_called) are drawn without replacement"""
@@ -1145,6 +1150,7 @@ def run(chk, ctx):
                 'probabilities summing to exactly 1; sizes n_sequenced 2..20 even, n_subsampling from {same, 2, n-2, random even}; corrected model: '
                 '1-3 populations, sim_threshold in {1 (analytic), 1e-2/0.25/0.5 (mixed), 0 (simulated)}, model spectra {neutral, random, sparse, '
                 'one entry, spike} with masked corners (+ random extra masks), fixed rng seeds for the simulations; deep-coverage cases (all depths >= 40); '
+                'simulated path: subsample_genotypes_1D on 1-4 locus patterns x 3000/6000 loci (fully / partly / insufficiently called), deep coverage with everything simulated and nsub < nseq; '
                 'sessions of 2-5 low-pass functions sharing population names in one process (kinds: coverage / Fx / nsub / nseq / threshold / nsim / model differs, mixed), '
                 'built up-front or lazily, evaluated in shuffled order with repeats, each compared with itself evaluated alone (reload or fresh interpreter); '
                 'non-trivial = distinct (helper, size class, F class, coverage class, regime, dimension)')
